@@ -1,0 +1,17 @@
+// Copyright The gittuf Authors
+// SPDX-License-Identifier: Apache-2.0
+
+//go:build verif
+
+// gvc contracts (comment-only, read under the "verif" build tag).
+
+package gitobject
+
+//@ # gitValid(kid, payload, sig): the key with this ID validates sig over payload (assumption A-crypto)
+//@ spec gitValid(kid string, payload []byte, sig []byte) bool
+
+//@ func Verify -> (err)
+//@   trusted
+//@   pure
+//@   requires key != nil
+//@   ensures err == nil <==> gitValid(key.KeyID, payload, signature)
